@@ -574,6 +574,13 @@ class Gen:
                 return k
         return k
 
+    def linenums_multi(self, t):
+        """at least two ranges, at least one with a negative number"""
+        while True:
+            T = self.linenums(t)
+            if len(T[1]) >= 2 and any(x < 0 for r in T[1] for x in r[1:]):
+                return T
+
     def linenums(self, t):
         """filter -line-nums RANGE...: 1 range (the ten single-range implementations) or 2-4 ranges (partition / merge /
         translation of negative numbers), numbers around 0, around +-(number of lines) and beyond the text on both sides"""
@@ -693,6 +700,7 @@ class Render:
     def __init__(self):
         self.files = {}  # name -> contents, to be created in the home directory
         self.n_src = 0
+        self.file_rel = ''  # relativity option of -contents-of (default: home directory)
 
     def file_for(self, t):
         name = 'f%d.txt' % len(self.files)
@@ -722,7 +730,7 @@ class Render:
         if k == 'str':
             r = q_str(e[1])
         elif k == 'file':
-            r = '-contents-of ' + self.file_for(e[1])
+            r = '-contents-of ' + self.file_rel + self.file_for(e[1])
         else:
             self.n_src += 1 if (self.n_src + 1) % 4 == 0 else 0  # the base of a transformed source is never parenthesised
             r = self.src(e[1]) + ' -transformed-by ' + self.t(e[2])
@@ -1192,19 +1200,38 @@ class Program:
         elif via == 'contents-instruction':
             src = rnd.m(case['expr'], top=True)
             body = '[assert]\ncontents -rel-home model.txt : %s\n' % src
+        elif via == 'contents-of-copied-files-instruction':
+            # fixtures copied into the sandbox by `copy` (which preserves the modification time); both the checked
+            # file and the files of -contents-of are the copies in the act directory
+            rnd.file_rel = '-rel-act '
+            src = rnd.m(case['expr'], top=True)
+            body = ('[setup]\n' + ''.join('copy %s\n' % name for name in ['model.txt'] + list(rnd.files)) +
+                    '[assert]\ncontents model.txt : %s\n' % src)
+        elif via == 'dir-contents-instruction':
+            # ONE matcher primitive applied to every file of a directory
+            src = rnd.m(case['expr'])
+            (home / 'd').mkdir()
+            for i, t in enumerate(case['model'][1]):
+                write_fixture(home / 'd' / ('file%d.txt' % i), t)
+            body = '[assert]\ndir-contents -rel-home d : %s file : contents %s\n' % (
+                'every' if case['quant'] == 'all' else 'any', src)
         else:
             src = rnd.m(case['expr'], top=True)
             body = '[act]\n$ cat %s\n[assert]\nstdout %s\n' % (model_path, src)
         files = dict(rnd.files)
-        files['model.txt'] = text
+        if via != 'dir-contents-instruction':
+            files['model.txt'] = text
         for name, contents in files.items():
-            with open(home / name, 'w', encoding='utf-8', newline='') as f:
-                f.write(contents)
+            write_fixture(home / name, contents)
         with open(home / 't.case', 'w', encoding='utf-8', newline='') as f:
             f.write(body)
         case['src'], case['files'], case['case_file'] = src, files, body
         if im is not None:
-            im.read_back_only(via == 'file-instruction', src, dict(rnd.files), case['expr'])
+            if via == 'contents-of-copied-files-instruction':  # same tree; the API read-back resolves the files in the home dir
+                rnd2 = Render()
+                im.read_back_only(False, rnd2.m(case['expr'], top=True), dict(rnd2.files), case['expr'])
+            else:
+                im.read_back_only(via == 'file-instruction', src, dict(rnd.files), case['expr'])
         keep = via == 'file-instruction'
         r = impl.run_main(self.mps[case['mem']], (['--keep'] if keep else []) + [str(home / 't.case')], str(home), str(self.scratch))
         if r.exception is not None:
@@ -1235,9 +1262,36 @@ def make_program_cases(rng, n):
     g = Gen(rng)
     cases = []
     for j in range(n):
-        via = rng.weighted([('file-instruction', 4), ('contents-instruction', 3), ('stdout-instruction', 3)])
+        via = rng.weighted([('file-instruction', 4), ('contents-instruction', 3), ('stdout-instruction', 3),
+                            ('contents-of-copied-files-instruction', 2), ('dir-contents-instruction', 3)])
         g.theme = rng.below(len(REGEXES)) if rng.chance(0.4) else None
         text = gen_text(rng, theme=g.theme)
+        if via == 'dir-contents-instruction':
+            texts = [text] + [gen_text(rng, long_ok=False, theme=g.theme if rng.chance(0.5) else None) for _ in range(rng.randint(1, 2))]
+            rng.shuffle(texts)
+            # mostly `-transformed-by T M` with a `filter -line-nums` in T (state kept between applications would show)
+            quant = rng.choice(['all', 'any'])
+            for _ in range(5):
+                if rng.chance(0.75):
+                    T = g.linenums_multi(rng.choice(texts)) if rng.chance(0.7) else g.trans(texts[0], 1)
+                    T = T if rng.chance(0.6) else ('seq', [T, g.trans(g.ref.t(T, texts[0]), 0)])
+                    m = ('trans', T, g.smatcher(g.ref.t(T, rng.choice(texts)), 1))
+                else:
+                    m = g.smatcher(rng.choice(texts), rng.randint(0, 2))
+                # prefer the informative aggregate: every file satisfies M (for `every`), no file does (for `any`) -
+                # one wrong application then flips the verdict
+                vs = [g.ref.m(m, t) for t in texts]
+                if all(vs) if quant == 'all' else not any(vs):
+                    break
+            cases.append({'kind': 'MF', 'via': via, 'expr': m, 'quant': quant, 'model': ('files', texts),
+                          'mem': rng.choice(Program.PMEMS)})
+            continue
+        if via == 'contents-of-copied-files-instruction':
+            model, m = g.equals_focus(text)
+            if rng.chance(0.3):
+                m = g.smatcher(text, 1)
+            cases.append({'kind': 'M', 'via': via, 'expr': m, 'model': ('file', model[1]), 'mem': rng.choice(Program.PMEMS)})
+            continue
         depth = rng.weighted([(0, 2), (1, 4), (2, 4)])
         mem = rng.choice(Program.PMEMS)
         if via == 'file-instruction':
@@ -1318,9 +1372,22 @@ def observe(im, case):
         case['obs'] = {'verdict': im.run_m(src, rnd.files, case['model'], case['mem'], case['expr'], case.get('before', ()))}
 
 
+def reference(ref, case):
+    if case['kind'] == 'MF':
+        vs = [ref.m(case['expr'], t) for t in case['model'][1]]
+        return all(vs) if case['quant'] == 'all' else any(vs)
+    return ref.t(case['expr'], case['model'][1]) if case['kind'] in ('T', 'TF') else ref.m(case['expr'], case['model'][1])
+
+
 def coq_case(case):
     ref = Ref()
     ct = CoqTerm()
+    if case['kind'] == 'MF':
+        case['ref'] = reference(ref, case)
+        term_e = ct.m(case['expr'])
+        case['oracle_assumption_violations'] = check_case_map_assumptions(ref)
+        return '(CaseMFiles %s %s %s %s %s %s)' % (ct.tables(ref), cN(case['mem']), 'QAll' if case['quant'] == 'all' else 'QAny',
+                                                   term_e, c_lines(case['model'][1]), cbool(case['obs']['verdict']))
     text = case['model'][1]
     if case['kind'] in ('T', 'TF'):
         case['ref'] = ref.t(case['expr'], text)
@@ -1387,7 +1454,9 @@ _NODE_NAMES = {'empty', 'equals', 'matches', 'numlines', 'line', 'trans', 'const
 def case_json(case):
     return {'kind': case['kind'], 'via': case.get('via', 'parsers + primitives in process'),
             'expression': case.get('src'), 'files_in_home_dir': case.get('files'), 'case_file': case.get('case_file'),
-            'source_kind': {'file': 'existing file', 'str': 'constant string'}[case['model'][0]], 'text': case['model'][1],
+            'source_kind': {'file': 'existing file', 'str': 'constant string', 'files': 'the files of a directory'}[case['model'][0]],
+            'text': case['model'][1], 'quant': case.get('quant'),
+            'same_primitive_applied_before_to': [list(b) for b in case.get('before', [])],
             'mem_buff_size': case['mem'], 'implementation_observed': case.get('obs'),
             'reference_semantics_says': case.get('ref'), 'expr': sym(case['expr']), 'model': list(case['model']), 'mem': case['mem']}
 
@@ -1425,7 +1494,8 @@ def load_corpus():
             if fn.endswith('.json'):
                 for c in json.load(open(os.path.join(d, fn), encoding='utf-8')):
                     out.append({'kind': c['kind'], 'via': c.get('via'), 'expr': tup(c['expr']), 'model': tuple(c['model']),
-                                'mem': c['mem'], 'corpus': fn})
+                                'mem': c['mem'], 'corpus': fn, 'quant': c.get('quant'),
+                                'before': [tuple(b) for b in c.get('before', [])]})
     return out
 
 
@@ -1434,7 +1504,8 @@ def observe_all(tmp, cases, res):
     good = []
     for c in cases:
         try:
-            if c.get('via') in ('file-instruction', 'contents-instruction', 'stdout-instruction'):
+            if c.get('via') in ('file-instruction', 'contents-instruction', 'stdout-instruction',
+                                'contents-of-copied-files-instruction', 'dir-contents-instruction'):
                 pg.run(c, im)
             else:
                 c.pop('via', None)
@@ -1442,7 +1513,7 @@ def observe_all(tmp, cases, res):
         except ImplRaised as ex:
             c['obs'] = {'exception': str(ex)}
             ref = Ref()
-            c['ref'] = ref.t(c['expr'], c['model'][1]) if c['kind'] in ('T', 'TF') else ref.m(c['expr'], c['model'][1])
+            c['ref'] = reference(ref, c)
             res.prop_failures.append(Failure('property', case_json(c), 'the implementation raised / ended in HARD_ERROR or '
                                              'INTERNAL_ERROR while applying a valid expression: no documented verdict / output'))
             continue
@@ -1457,7 +1528,7 @@ def observe_all(tmp, cases, res):
 
 def run(ctx, res, sizes=None):
     rng = ctx.rng
-    n_t, n_m, n_p = sizes or ((1300, 1700, 500) if ctx.quick else (24000, 32000, 4000))
+    n_t, n_m, n_p = sizes or ((1100, 1400, 550) if ctx.quick else (20000, 27000, 4500))
     n_fam = len(REGEXES)
     extend_family(rng, 50 if ctx.quick else 400, 8 if ctx.quick else 30)
     res.extra['regex_family'] = {'fixed_patterns': N_FIXED_REGEXES, 'generated_patterns_this_run': len(REGEXES) - n_fam,
@@ -1477,6 +1548,10 @@ def run(ctx, res, sizes=None):
         res.count('kind ' + c['kind'] + ' via ' + c.get('via', 'primitives in process'))
         res.count('source ' + c['model'][0])
         t = c['model'][1]
+        if c['model'][0] == 'files':
+            t = '\x00'.join(t)  # the texts of a directory, as one key
+        if c.get('before'):
+            res.count('the same primitive applied to %d text(s) before' % len(c['before']))
         res.count('text: ' + ('empty' if t == '' else 'no final newline' if not t.endswith('\n') else 'ends with newline'))
         res.count('expression size %d' % min(size_of(c['expr']), 12))
         for k in kinds_of(c['expr'], set()):
@@ -1484,11 +1559,12 @@ def run(ctx, res, sizes=None):
         if 'verdict' in c['obs']:
             res.count('verdict %s' % c['obs']['verdict'])
         if size_of(c['expr']) >= 2 and (len(lines_lf(t)) >= 2 or (t and not t.endswith('\n'))):
-            res.nontrivial.add((c['src'], t, c['model'][0], c.get('via')))
+            res.nontrivial.add((c['src'], t, c['model'][0], c.get('via'), len(c.get('before') or ())))
     res.rule = ('corpus first; random expressions (depth <= 3) over every matcher / transformer form of the statement, rendered to '
                 'concrete syntax and parsed by the real parsers; texts over {a b A B space tab newline . x 1 , ; ( * [ \\ é ß Σ ...} '
                 'with forced shapes (empty, no final newline, blank lines around, whitespace only, long); file and constant-string '
-                'sources; 5 memory-buffer sizes; a stream of whole test cases through MainProgram (contents / stdout / file '
+                'sources (all fixture files share one mtime; same-size different-content pairs); 5 memory-buffer sizes; primitives applied '
+                'to 2-3 texts in sequence; a stream of whole test cases through MainProgram (contents / stdout / file / copy + contents / dir-contents every|any file '
                 'instructions). non-trivial := expression with >= 2 nodes AND text with >= 2 lines or an unterminated last line; '
                 'distinct := distinct (expression, text, source kind, route)')
     res.evaluations = len(good)
@@ -1519,7 +1595,8 @@ def replay(ctx, payload):
     if not case or 'expr' not in case:
         print(json.dumps(payload, indent=1, ensure_ascii=False, default=str))
         return 0
-    c = {'kind': case['kind'], 'via': case.get('via'), 'expr': tup(case['expr']), 'model': tuple(case['model']), 'mem': case['mem']}
+    c = {'kind': case['kind'], 'via': case.get('via'), 'expr': tup(case['expr']), 'model': tuple(case['model']), 'mem': case['mem'],
+         'quant': case.get('quant'), 'before': [tuple(b) for b in case.get('same_primitive_applied_before_to') or []]}
     res = common.Result()
     tmp = tempfile.mkdtemp(prefix='c05-replay-', dir=ctx.work)
     try:
@@ -1537,3 +1614,7 @@ def replay(ctx, payload):
     print('Coq: model = implementation: %s; documented meaning = implementation: %s; errors: %s'
           % (not cb, not pb, res.errors))
     return 1 if (cb or pb or res.errors) else 0
+
+
+def gen_tables(ctx):
+    common.source_tie('C05')
